@@ -9,6 +9,8 @@
 #include <stdlib.h>
 #include <string.h>
 #include <unistd.h>
+#include <sys/stat.h>
+#include <limits.h>
 
 struct dstate {
 	DIR *dir;
@@ -137,3 +139,77 @@ int closedir(DIR *d)
 	}
 	return r_closedir(d);
 }
+
+
+/* ---- a pretended mount point: everything at or below a path that ends in VERIF_RD_MOUNT_SUFFIX reports another st_dev ---- */
+static int (*r_fstatat)(int, const char *, struct stat *, int);
+static int (*r_fstat)(int, struct stat *);
+
+static int below_mount(const char *path)
+{
+	const char *suf = getenv("VERIF_RD_MOUNT_SUFFIX"), *p;
+	size_t l;
+	if (suf == NULL || suf[0] == '\0')
+		return 0;
+	l = strlen(suf);
+	p = strstr(path, suf);
+	return p != NULL && (p[l] == '\0' || p[l] == '/');
+}
+
+static void fd_path(int fd, char *buf, size_t n)
+{
+	char link[64];
+	ssize_t r;
+	snprintf(link, sizeof(link), "/proc/self/fd/%d", fd);
+	r = readlink(link, buf, n - 1);
+	buf[r > 0 ? r : 0] = '\0';
+}
+
+static int my_fstatat(int dfd, const char *name, struct stat *sb, int flags)
+{
+	char path[PATH_MAX * 2];
+	int ret;
+	if (!r_fstatat)
+		r_fstatat = dlsym(RTLD_NEXT, "fstatat64");
+	ret = r_fstatat(dfd, name, sb, flags);
+	if (ret != 0 || getenv("VERIF_RD_MOUNT_SUFFIX") == NULL)
+		return ret;
+	if (name[0] == '/' || dfd == AT_FDCWD) {
+		snprintf(path, sizeof(path), "%s", name);
+	} else {
+		size_t l;
+		fd_path(dfd, path, PATH_MAX);
+		l = strlen(path);
+		if (!strcmp(name, "..")) {
+			char *sl = strrchr(path, '/');
+			if (sl && sl != path)
+				*sl = '\0';
+		} else if (strcmp(name, ".") != 0) {
+			snprintf(path + l, sizeof(path) - l, "/%s", name);
+		}
+	}
+	if (below_mount(path))
+		sb->st_dev += 7;
+	return ret;
+}
+
+int fstatat64(int dfd, const char *name, struct stat64 *sb, int flags) { return my_fstatat(dfd, name, (struct stat *)sb, flags); }
+int fstatat(int dfd, const char *name, struct stat *sb, int flags) { return my_fstatat(dfd, name, sb, flags); }
+
+static int my_fstat(int fd, struct stat *sb)
+{
+	char path[PATH_MAX];
+	int ret;
+	if (!r_fstat)
+		r_fstat = dlsym(RTLD_NEXT, "fstat64");
+	ret = r_fstat(fd, sb);
+	if (ret != 0 || getenv("VERIF_RD_MOUNT_SUFFIX") == NULL)
+		return ret;
+	fd_path(fd, path, sizeof(path));
+	if (below_mount(path))
+		sb->st_dev += 7;
+	return ret;
+}
+
+int fstat64(int fd, struct stat64 *sb) { return my_fstat(fd, (struct stat *)sb); }
+int fstat(int fd, struct stat *sb) { return my_fstat(fd, sb); }
